@@ -33,7 +33,10 @@ def catalogue(tier):
                 out.append(dict(id="d%d" % n, name="Num%d" % n, ty=ty, kind=k, bound=v, fam="int"))
     for ty in FLOAT_TYPES:
         for k in ("gt", "ge", "lt", "le"):
-            for v in (["-2.5", "0.0", "12.34"] if tier == "quick" else ["-2.5", "0.0", "12.34", "1e10", "-0.001"]):
+            base = ["-2.5", "0.0", "12.34"] if tier == "quick" else ["-2.5", "0.0", "12.34", "1e10", "-0.001"]
+            if ty == "f64":
+                base = base + (["16777217.0"] if tier == "quick" else ["16777217.0", "0.123456789", "-1e300"])   # not representable in f32
+            for v in base:
                 n += 1
                 out.append(dict(id="d%d" % n, name="Flt%d" % n, ty=ty, kind=k, bound=v, fam="float"))
     for k in ("min", "max"):
@@ -41,6 +44,23 @@ def catalogue(tier):
             n += 1
             out.append(dict(id="d%d" % n, name="Txt%d" % n, ty="String", kind=k, bound=v, fam="string"))
     return out
+
+
+def pair_catalogue(tier):
+    """two literal bounds on one type: whichever variant is returned, its message must not describe an admitted value as forbidden"""
+    out = []
+    n = 0
+    for ty, lo, hi in ([("i32", "0", "100"), ("u8", "3", "200"), ("f64", "0.0", "100.0")] if tier == "quick" else
+                       [("i8", "-5", "100"), ("u8", "3", "200"), ("i32", "0", "100"), ("u64", "1", "1000"), ("i128", "-7", "7"), ("f32", "0.0", "100.0"), ("f64", "0.0", "100.0")]):
+        fl = ty in FLOAT_TYPES
+        for (lk, uk) in ([("gt", "lt"), ("ge", "lt")] if fl else [("gt", "le"), ("ge", "lt"), ("gt", "lt"), ("ge", "le")]):
+            n += 1
+            out.append(dict(id="p%d" % n, name="Pair%d" % n, ty=ty, lk=lk, uk=uk, lo=lo, hi=hi, fam="float" if fl else "int"))
+    return out
+
+
+def pair_decl_src(c, derives=""):
+    return "#[nutype(validate(%s = %s, %s = %s)%s)]\npub struct %s(%s);" % (KW[c["lk"]], c["lo"], KW[c["uk"]], c["hi"], derives, c["name"], c["ty"])
 
 
 def decl_src(c, derives=""):
@@ -77,6 +97,10 @@ def native_messages(ctx, cat):
             if bad is not None:
                 body.append('    { let bad = %s; println!("SERDE\\t%s\\t{}", serde_json::from_str::<%s>(&format!("{:?}", bad)).unwrap_err());' % (bad, c["id"], c["name"]))
                 body.append('      println!("FROMSTR\\t%s\\t{}", format!("{:?}", bad).parse::<%s>().unwrap_err()); }' % (c["id"], c["name"]))
+    for c in pair_catalogue(ctx["tier"]):
+        src.append(pair_decl_src(c, ", derive(Debug)"))
+        body.append('    println!("MSG\\t%s:lo\\t{}", %sError::%s);' % (c["id"], c["name"], VAR[c["lk"]]))
+        body.append('    println!("MSG\\t%s:hi\\t{}", %sError::%s);' % (c["id"], c["name"], VAR[c["uk"]]))
     src.append("fn main() {\n" + "\n".join(body) + "\n}\n")
     open(os.path.join(pdir, "src", "main.rs"), "w").write("\n".join(src))
     rc, out = sh(["cargo", "run", "--offline", "-q", "--target-dir", os.path.join(wdir, "target-msgs")], cwd=pdir, timeout=1800, log=os.path.join(wdir, "msgs.log"))
@@ -193,6 +217,25 @@ def generate(tier, seed):
                 plan.add(H(hn + "_must_fail", "must_fail", {"sabotage": "relation strictness flipped"}))
                 first = False
             src.append("}\n")
+        for c in pair_catalogue(ctx["tier"]):
+            tl = msgs.get(c["id"] + ":lo", {}).get("MSG"); th = msgs.get(c["id"] + ":hi", {}).get("MSG")
+            if tl is None or th is None:
+                res.append(("inconclusive", c["id"], {"what": "no message printed for %s" % pair_decl_src(c)}))
+                continue
+            (rl, bl), (rh, bh) = parse_text(tl), parse_text(th)
+            if rl is None or rh is None:
+                continue  # unparsable texts are reported by the single-validator declarations
+            ty = c["ty"]
+            lit = lambda t: (t + ".0") if (c["fam"] == "float" and re.fullmatch(r"-?\d+", t)) else t
+            b = ["let x: %s = kani::any();" % ty] + (["kani::assume(!x.is_nan());"] if c["fam"] == "float" else []) + [
+                 "let said_lo: bool = x %s (%s as %s); let said_hi: bool = x %s (%s as %s);" % (rl, lit(bl), ty, rh, lit(bh), ty),
+                 "kani::cover!(true);",
+                 "match %s::try_new(x) {\n            Ok(_) => { assert!(said_lo && said_hi, \"an accepted value violates a constraint stated in the messages\"); }\n"
+                 "            Err(%sError::%s) => { assert!(!said_lo, \"the value was refused with a message whose stated constraint it satisfies\"); }\n"
+                 "            Err(%sError::%s) => { assert!(!said_hi, \"the value was refused with a message whose stated constraint it satisfies\"); }\n        }" % (c["name"], c["name"], VAR[c["lk"]], c["name"], VAR[c["uk"]])]
+            hn = "c16_%s_%s_%s_%s" % (c["id"], ty, c["lk"], c["uk"])
+            src.append("pub mod %s {\n    use super::*;\n%s\n    #[kani::proof]\n    pub fn %s() {\n        %s\n    }\n}\n" % (c["id"], indent(pair_decl_src(c)), hn, "\n        ".join(b)))
+            plan.add(H(hn, "main", {"declaration": pair_decl_src(c).split("\n")[0], "messages": [tl, th]}))
         open(os.path.join(ctx["crate"], "src", "gen_c16.rs"), "w").write("\n".join(src))
         plan.extra_evidence["messages_parsed"] = samples[:60]
         res.append(("ok", "native-messages", {"what": "%d messages dumped, %d parsed into (name, relation, bound)" % (len(msgs), len(samples))}))
